@@ -55,6 +55,9 @@ EXPECTED_PROBES = ["multi_chunk_array_written", "zero_dim_array", "empty_array_o
                    "bulk_intlist", "bulk_attrs"]
 
 
+RULE = RULE + ' Rounds 14-15: with one live object saved to both stores, the object is changed IN PLACE between the two saves (tensors through .data, arrays through +=; the autograd version counter does not move) and the second load is compared with spec + the same mutation.'
+
+
 def setup():
     serio.setup()
 
